@@ -1555,6 +1555,19 @@ async fn execute_command<T: Into<String>>(
     let mut guard = crate::env::ScopeGuard::new(&mut context.shell, EnvironmentScope::Command);
 
     for assignment in assignments {
+        // A readonly variable cannot be overridden for the duration of a command either: the
+        // assignment is reported and skipped, and the command still runs.
+        let shell = guard.shell();
+        if shell
+            .env()
+            .get(assignment.name.base_name())
+            .is_some_and(|(_, var)| var.is_readonly())
+        {
+            let err = error::Error::from(error::ErrorKind::ReadonlyVariable);
+            let _ = shell.display_error(&mut params.stderr(shell), &err);
+            continue;
+        }
+
         // Ensure it's tagged as exported and created in the command scope.
         apply_assignment(
             assignment,
